@@ -16,6 +16,9 @@ import vlib
 PART = "notarypool"
 UNIVERSES = ("U1", "U2", "U3")
 DEVIATIONS = ("U3shared", "U1norecheck")
+# The staleness rule ("i:..." predicates) is not implied by the statement of C08: recorded as drift.  The lead may decide
+# to judge it (then a falsified informational predicate becomes a violation with kind "i:<name>").
+JUDGE_INFORMATIONAL = False
 
 
 def run_ext(ctx):
@@ -70,9 +73,9 @@ def run_ext(ctx):
         li = f["line"] - 1
         s = starts[li]
         ev = events[li]
-        judged = sorted(w for w in f["what"] if not w.startswith("i:"))
+        judged = sorted(w for w in f["what"] if JUDGE_INFORMATIONAL or not w.startswith("i:"))
         for w in f["what"]:
-            if w.startswith("i:"):
+            if w.startswith("i:") and not JUDGE_INFORMATIONAL:
                 info[w] = info.get(w, 0) + 1
                 if len(ctx.spec_drift) < 20:
                     ctx.spec_drift.append({"part": PART, "informational": w, "event": ev, "src": events[s].get("src")})
